@@ -553,6 +553,37 @@ def atof64_ir_rules(rep, mod, f, fname, E, M, S):
         want_step, want_pred = (-1, 'sgt') if k == 10.0 else (1, 'slt')
         ok = len(cs) == 1 and cs[0][1] == want_step and g is not None and g[0] == want_pred and \
             g[1].k == 'inst' and g[1].id == cs[0][0].id and g[2].k == 'ci' and g[2].ival == 0
+        if not ok and len(cs) == 1 and cs[0][1] == want_step and g is not None and g[0] == 'ne' and \
+                g[1].k == 'inst' and g[1].id == cs[0][0].id and g[2].k == 'ci' and g[2].ival == 0:
+            # `if (e > 0) for (n = e; n != 0; --n)`: counting to zero is the same loop when every way into it has established
+            # the sign of the entry value
+            cph = cs[0][0]
+            inits = [v for (bb, v) in cph.incoming if f.bmap[bb] not in L['blocks']]
+            if len(inits) == 1 and inits[0].k == 'inst':
+                iv0 = inits[0]
+                for c in f.all_insts():
+                    if c.op != 'icmp' or len(c.ops) != 2:
+                        continue
+                    a, b = c.ops
+                    pos = None
+                    if a.key() == iv0.key() and b.k == 'ci':
+                        # True: the true edge gives init >= 0 (enough for a count-down to zero); False: it gives init <= 0
+                        pos = {('sgt', 0): True, ('sge', 1): True, ('sge', 0): True, ('sgt', -1): True,
+                               ('slt', 0): False, ('sle', -1): False, ('sle', 0): False, ('slt', 1): False}.get((c.pred, b.ival))
+                        # the same for the false edge
+                        neg_edge = {('sle', 0): True, ('slt', 1): True, ('slt', 0): True, ('sle', -1): True,
+                                    ('sge', 0): False, ('sgt', -1): False, ('sgt', 0): False, ('sge', 1): False}.get((c.pred, b.ival))
+                    else:
+                        continue
+                    want_pos = (k == 10.0)
+                    edges = []
+                    if pos is not None and pos == want_pos:
+                        edges = f.edges_implying(c, True)
+                    elif neg_edge is not None and neg_edge == want_pos:
+                        edges = f.edges_implying(c, False)
+                    if edges and f.only_through_edges(edges, L['header']):
+                        ok = True
+                        break
         inst('%s: runs while the decimal scale is %s zero, stepping it by %+d' % (
             nm, 'above' if k == 10.0 else 'below', want_step), ok,
             'counter steps %s, loop continues while %s' % ([c[1] for c in cs], g[0] if g else '?'), L['header'].term.where())
